@@ -211,7 +211,26 @@ def t_traceback(rng):
                          "emit(debug.traceback('msg', 1))\n" % (d, d))
 
 
-TEMPLATES = [t_traceback, t_close, t_reentrant, t_deep, t_tail, t_unwind, t_coro, t_closures, t_live, t_regsizes, t_varargs, t_gocalls]
+def t_tbc_errors(rng):
+    """to-be-closed variables whose handlers look at the stack (debug.traceback inside __close while the function
+    returns), fail, or have lost their __close metamethod when the scope/function is left: the error paths in which a
+    continuation released too early is still dereferenced (traceback parent, error position)"""
+    n = rng.choice([1, 2, 5])
+    b = rng.choice([3, 20, 120])
+    return "tbc-errors", ("local function mk(tag) return setmetatable({}, {__close = function(_, e) emit(tag, e ~= nil, debug.traceback('in close')) end}) end\n"
+                          "local function leaf(n) local a <close> = mk('leaf' .. n) local t = {n} return #t + n end\n"
+                          "local function mid(n) local b <close> = mk('mid' .. n) local r = leaf(n) return r + 1 end\n"
+                          "local function bad(n) local c <close> = setmetatable({}, {__close = function() error('close fails ' .. n) end}) local d <close> = mk('bad' .. n) return n end\n"
+                          "local function scoped(n) do local e <close> = setmetatable({}, {__close = function() error('scoped ' .. n) end}) end return n end\n"
+                          "local function lost(n) local a, b = n, n local mt = {__close = function() end} local x <close> = setmetatable({}, mt) mt.__close = nil return a + b end\n"
+                          "local function lost2(n) local a = n local mt = {__close = function() end} do local x <close> = setmetatable({}, mt) mt.__close = nil end return a end\n"
+                          "local function busy(n) if n == 0 then return 0 end local p, q = n, n return busy(n - 1) + p - q end\n"
+                          "for i = 1, %d do\n  emit(mid(i)) emit(xpcall(bad, debug.traceback, i)) emit(busy(%d))\n"
+                          "  emit(xpcall(scoped, debug.traceback, i)) emit(mid(i))\n"
+                          "  emit(pcall(lost, i)) emit(busy(%d)) emit(pcall(lost2, i)) emit(xpcall(lost, debug.traceback, i)) emit(busy(7))\nend\n" % (n, b, b))
+
+
+TEMPLATES = [t_tbc_errors, t_traceback, t_close, t_reentrant, t_deep, t_tail, t_unwind, t_coro, t_closures, t_live, t_regsizes, t_varargs, t_gocalls]
 
 
 def rand_program(rng):
